@@ -175,7 +175,7 @@ class StageSampler:
         pass
 
 
-def mutate_settings(cfg, rnd, cov, clean=None):
+def mutate_settings(cfg, rnd, cov, clean=None, p_nodes=0.6):
     """generated settings for every scripted agent of a shipped scenario"""
     cfg = copy.deepcopy(cfg)
     for a in cfg["agents"]:
@@ -204,7 +204,13 @@ def mutate_settings(cfg, rnd, cov, clean=None):
             keys = list(range(n))
             rnd.shuffle(keys)  # textual order of the table is irrelevant
             s["action_probabilities"] = {k: p[k] for k in keys}
-        elif t in ("tap-001", "tap-003") and clean:
+        if t in ("tap-001", "tap-003") and s.get("default_starting_node") == "ST_PROJ-A-PRV-PC-1" and rnd.random() < p_nodes:
+            # the alternative the shipped files document in a comment: several candidate start hosts (any order)
+            nodes = ["ST_PROJ-A-PRV-PC-1", "ST_PROJ-B-PRV-PC-2", "ST_PROJ-C-PRV-PC-3"]
+            rnd.shuffle(nodes)
+            s["starting_nodes"] = nodes[: rnd.choice([2, 3, 3])]
+            cov.inc("tap_several_starting_nodes")
+        if t in ("tap-001", "tap-003") and clean:
             s["frequency"], s["variance"], s["start_step"] = rnd.choice([2, 3]), 0, rnd.randint(1, 3)
             s["repeat_kill_chain"] = clean == "repeat"
             s["repeat_kill_chain_stages"] = True
